@@ -95,15 +95,46 @@ DROP = re.compile(r"^\s*(self\.[\w\.\[\]]+\.(insert|clear|push|fill|remove)\(.*\
                   r"break;|continue;|return None;|[\w\.\[\]]+ = None;|[\w\.\[\]]+ \+= 1;|[\w\.\[\]]+ = 0;|\w+ = Some\(\w+\);|\w+ = None;)\s*$")
 
 
+BASE = {"id": None, "root": "/repo", "added": None}
+
+
+def added_lines(patch_path):
+    """{file: set(new-file line numbers)} of the '+' lines of a unified diff"""
+    out = {}
+    cur = None
+    n = 0
+    for ln in open(patch_path).read().split("\n"):
+        if ln.startswith("+++ "):
+            cur = ln[4:].split("\t")[0]
+            cur = cur[2:] if cur.startswith("b/") else cur
+            out.setdefault(cur, set())
+        elif ln.startswith("@@"):
+            m = re.search(r"\+(\d+)", ln)
+            n = int(m.group(1)) - 1
+        elif cur is not None and not ln.startswith("---"):
+            if ln.startswith("+"):
+                n += 1
+                out[cur].add(n)
+            elif ln.startswith("-"):
+                pass
+            else:
+                n += 1
+    return out
+
+
 def generate(only=None):
     muts = []
     for f in FILES:
         if only and not any(o in f for o in only):
             continue
-        lines = open(os.path.join("/repo", f)).read().split("\n")
+        if BASE["added"] is not None and f not in BASE["added"]:
+            continue
+        lines = open(os.path.join(BASE["root"], f)).read().split("\n")
         spans = test_spans(lines)
         for i, ln in enumerate(lines):
             if any(a <= i < b for a, b in spans):
+                continue
+            if BASE["added"] is not None and (i + 1) not in BASE["added"][f]:
                 continue
             st = ln.strip()
             if not st or st.startswith("//") or st.startswith("#[") or st.startswith("use ") or st.startswith("///"):
@@ -136,7 +167,7 @@ def prepare_worker(w):
         shutil.rmtree(d, ignore_errors=True)
         os.makedirs(d)
         for n in ("src", "examples", "benches", "Cargo.toml", "Cargo.lock"):
-            s, t = os.path.join("/repo", n), os.path.join(d, n)
+            s, t = os.path.join(BASE["root"], n), os.path.join(d, n)
             (shutil.copytree if os.path.isdir(s) else shutil.copy)(s, t)
     return d
 
@@ -144,7 +175,7 @@ def prepare_worker(w):
 def run_one(w, m, assume_survived=False):
     d = prepare_worker(w)
     path = os.path.join(d, m["file"])
-    orig = open(os.path.join("/repo", m["file"])).read()
+    orig = open(os.path.join(BASE["root"], m["file"])).read()
     lines = orig.split("\n")
     assert lines[m["line"] - 1] == m["old"]
     lines[m["line"] - 1] = m["new"]
@@ -195,9 +226,31 @@ def main():
         limit = int(args[args.index("--limit") + 1])
     os.makedirs(OUT, exist_ok=True)
     os.makedirs(ROOT, exist_ok=True)
+    resf = os.path.join(OUT, "results.jsonl")
+    if "--base" in args:
+        # mutate only the lines a behaviour-preserving refactoring (benign/<id>) added, on top of that refactoring
+        bid = args[args.index("--base") + 1]
+        root = os.path.join(ROOT, "base-" + bid)
+        shutil.rmtree(root, ignore_errors=True)
+        os.makedirs(root)
+        for n in ("src", "examples", "benches", "Cargo.toml", "Cargo.lock"):
+            s_, t_ = os.path.join("/repo", n), os.path.join(root, n)
+            (shutil.copytree if os.path.isdir(s_) else shutil.copy)(s_, t_)
+        patch = os.path.join(HERE, "benign", bid, "patch.diff")
+        r = subprocess.run(["patch", "-p1", "-s", "-i", patch], cwd=root, stdout=subprocess.PIPE, stderr=subprocess.STDOUT, text=True)
+        if r.returncode != 0:
+            print("base patch does not apply", r.stdout[:200])
+            return
+        BASE.update(id=bid, root=root, added=added_lines(patch))
+        resf = os.path.join(OUT, f"base-{bid}.jsonl")
+        # workers must start from the base tree
+        for w in range(jobs):
+            shutil.rmtree(os.path.join(ROOT, f"w{w}", "src"), ignore_errors=True)
+    else:
+        for w in range(jobs):
+            shutil.rmtree(os.path.join(ROOT, f"w{w}", "src"), ignore_errors=True)
     muts = generate(only)
     done = {}
-    resf = os.path.join(OUT, "results.jsonl")
     if ("--resume" in args or "--recheck" in args) and os.path.exists(resf):
         for ln in open(resf):
             r = json.loads(ln)
